@@ -1,6 +1,7 @@
 """C05 -- branch metadata given to Binary Ninja matches where execution actually goes.
 
-Three generated domains (Python only: arch.get_instruction_info + the Python Emulator on a hash-filled memory):
+Three generated domains (arch.get_instruction_info + the Python Emulator on a hash-filled memory; domain (c) also
+runs on the Rust LLAMA core and on the Rust machine runtime):
 
   (a) "single": every control-flow head (opcodes 01-07, 10-1F, FE, FF; bare and under each of the 15 PRE bytes
       the decoder accepts) x an address grid (interior, last bytes of a 64 KiB page incl. "ends exactly at the
@@ -13,8 +14,11 @@ Three generated domains (Python only: arch.get_instruction_info + the Python Emu
       machine states x address classes, for "no branch reported => continues at addr+len".
   (c) "pair": generated programs: CALL/CALLF/IR at a call site whose callee/handler is a random stack-neutral
       body (balanced PUSHS/POPS and PUSHU/POPU, register arithmetic, flag and IMR writers, nested calls and
-      software interrupts) ending in the matching RET/RETF/RETI; checked at *every* call..return pair of the
-      program (see c05_pairs.py).
+      software interrupts, computed jumps through push+RET/RETF) ending in the matching RET/RETF/RETI; tree and
+      chain shapes (a near call open in one page while a far call runs in another); checked at *every*
+      call..return pair of the program, on the Python core, the Rust LLAMA core (LlamaExecutor on the same hash
+      memory) and the Rust machine runtime (CoreRuntime.step, SIO stub on/off, callees that the runtime services
+      itself and returns from) (see c05_pairs.py).
 
 Oracle = the property statement only; the one piece of instruction semantics used is the README's reading of
 the condition suffix (JPZ/JRZ: Z=1, ..NZ: Z=0, ..C: C=1, ..NC: C=0), taken from the *rendered mnemonic*.
@@ -29,6 +33,7 @@ from ..core import Ctx, HarnessError, Report, Violation, mix32
 from .. import gen_enc as G
 from .. import gen_state as S
 from .. import pycore
+from .. import rsclient
 from .. import textparse as TP
 from . import c05_pairs as P
 from .c05_pairs import M20, addr_class, diffclass, s20  # noqa: F401
@@ -37,11 +42,15 @@ PROPERTY = "C05"
 RULE = ("single: (prefix|none) x control-flow opcode x address class x (C,Z) x operand class, executed once on the "
         "Python core and compared with InstructionInfo.branches; other: stratified sample of all valid encodings "
         "x generated state x address class (no branch reported => addr+len); pair: generated call..return "
-        "programs (CALL..RET, CALLF..RETF, IR..RETI, nested) with stack-neutral bodies. Non-trivial = single/"
+        "programs (CALL..RET, CALLF..RETF, IR..RETI, nested trees and chains mixing near/far/interrupt frames) "
+        "with stack-neutral bodies (incl. computed jumps through push+RET/RETF), each executed on the Python core, "
+        "the Rust LLAMA core and (separate stream, plainly mapped memory, SIO stub on/off, runtime-serviced "
+        "callees) the Rust CoreRuntime. Non-trivial = single/"
         "other: the PC reached differs from addr+len, or the instruction's last byte lies within 4 bytes of a "
         "64 KiB page end (or it straddles one / wraps 0xFFFFF); pair: always (a call and its return were "
         "executed). Distinct = single: (prefix, opcode, address class, CZ, operand class); other: (prefix, "
-        "opcode, second byte, address class); pair: (flavour, site class, return class, S class, body hash).")
+        "opcode, second byte, address class); pair: (core+config, flavour, site class, return class, S class, body "
+        "hash); programs ended by an executor error or a computed jump that missed its continuation are not counted.")
 
 CF_OPS: Tuple[int, ...] = tuple(range(0x01, 0x08)) + tuple(range(0x10, 0x20)) + (0xFE, 0xFF)
 TARGETLESS = ("FunctionReturn", "UnresolvedBranch", "IndirectBranch", "SystemCall", "ExceptionBranch",
@@ -63,7 +72,17 @@ ASSUMPTIONS = [
     "instruction is followed by NOP bytes (look-ahead dependence is C01's subject)",
     "a Python exception while executing a valid encoding is not a C05 verdict (label python-exception)",
     "pair programs keep S and U at least 0x40 away from 0x00000/0xFFFFF (stack wrap through the top of memory "
-    "is a memory-model question, C11) and away from all code; callee bodies are straight-line",
+    "is a memory-model question, C11) and away from all code; callee bodies follow one fixed path (straight-line "
+    "plus computed jumps through push+RET/RETF to the next item)",
+    "the pair law is applied to each executing core on its own (Python Emulator, Rust LlamaExecutor, Rust "
+    "CoreRuntime.step); cores are never compared with each other (C06); an executor error ends a program unjudged",
+    "a computed jump through RET/RETF is part of the stack-neutral body, not a pair: if it misses its continuation "
+    "the program is labelled cj-astray and not judged (no statement covers a return in isolation)",
+    "CoreRuntime programs run with timers off and ISR=0 (no hardware interrupts: C12) in memory the PC-E500 model "
+    "maps plainly (pages 1-7, 0xC-0xF, stacks also in 0xB8100-0xBFF00)",
+    "with CoreRuntime::enable_sio_stub() (device.rs enables it for every PC-E500 machine) a call to 0xEB030/"
+    "0xEB31C/0xEB33D is a call whose matching return is performed by the runtime (SioStub::force_return_auto): "
+    "resume address, S and IMR must be restored; F is not compared (the serviced routine reports through C)",
     "for CALL/CALLF pairs F and IMR are compared only when the whole callee is flag-/IMR-neutral by the README "
     "flag column ('- -'); for IR..RETI they are always compared (handlers deliberately modify F and IMR)",
     "which internal-memory cell JP (n) reads under which PRE byte is C03's subject; here only 'reported target "
@@ -399,25 +418,33 @@ def _shard_other(task: Tuple[int, int, str, int]) -> Report:
 # (c) pairs
 # ------------------------------------------------------------------------------------------------
 
-def _shard_pair(task: Tuple[int, int, str, int]) -> Report:
-    shard, seed, tier, count = task
+def _shard_pair(task: Tuple[int, int, str, int, str]) -> Report:
+    """profile "full": every program runs on the Python core and on the Rust LLAMA core (same bytes, same hash
+    memory; each judged against the statement on its own); profile "rt": on the Rust machine runtime."""
+    shard, seed, tier, count, profile = task
     rep = Report()
     for j in range(count):
-        st = S.Stream(seed, 0xC05C, shard, j)
-        case = P.gen_program(st, thorough=(tier != "quick"))
-        if case is None:
+        st = S.Stream(seed, 0xC05C if profile == "full" else 0xC05D, shard, j)
+        case0 = P.gen_program(st, thorough=(tier != "quick"), profile=profile)
+        if case0 is None:
             rep.filtered += 1
             continue
-        res = P.exec_program(case)
-        for v in res["viol"]:
-            rep.violate(v)
-        sample = None
-        if rep.evaluations % 701 == 3:
-            sample = {"kind": "pair", "top": res["top"], "steps": res["steps"], "pairs_checked": res["pairs"],
-                      "routines": [{"addr": hex(r["addr"]), "n": len(r["ins"])} for r in case["routines"]]}
-        rep.case(None if res.get("err") else "p:" + res["key"], ["kind:pair"] + res["labels"], sample)
-        rep.extra["pairs_checked"] = rep.extra.get("pairs_checked", 0) + res["pairs"]
-        rep.extra["pair_steps"] = rep.extra.get("pair_steps", 0) + res["steps"]
+        for core in (("py", "rs") if profile == "full" else ("rt",)):
+            case = {**case0, "core": core}
+            res = P.exec_program(case)
+            for v in res["viol"]:
+                rep.violate(v)
+            sample = None
+            if rep.evaluations % 701 == 3:
+                sample = {"kind": "pair", "core": core, "top": res["top"], "steps": res["steps"],
+                          "pairs_checked": res["pairs"], "sio": case.get("sio"),
+                          "routines": [{"addr": hex(r["addr"]), "n": len(r["ins"]), "hle": bool(r.get("hle"))}
+                                       for r in case["routines"]]}
+            judged = not res.get("err") and not res.get("astray")
+            rep.case("p:" + res["key"] if judged else None, ["kind:pair"] + res["labels"], sample)
+            rep.extra["pairs_checked"] = rep.extra.get("pairs_checked", 0) + res["pairs"]
+            rep.extra[f"pairs_checked_{core}"] = rep.extra.get(f"pairs_checked_{core}", 0) + res["pairs"]
+            rep.extra["pair_steps"] = rep.extra.get("pair_steps", 0) + res["steps"]
     return rep
 
 
@@ -432,13 +459,16 @@ def _task(task: Tuple[str, Any]) -> Report:
 
 def run(ctx: Ctx) -> Report:
     P.self_test()
+    rsclient.build()
+    P.rt_self_test()
     tasks_s = [(i, ctx.seed, ctx.tier) for i in range(len(G.PRES))]
     n_other = ctx.pick(16, 64)
     per_other = ctx.pick(2000, 5000)
     tasks_o = [(i, ctx.seed, ctx.tier, per_other) for i in range(n_other)]
     n_pair = ctx.pick(16, 64)
     per_pair = ctx.pick(220, 420)
-    tasks_p = [(i, ctx.seed, ctx.tier, per_pair) for i in range(n_pair)]
+    tasks_p = [(i, ctx.seed, ctx.tier, per_pair, "full") for i in range(n_pair)]
+    tasks_p += [(i, ctx.seed, ctx.tier, per_pair, "rt") for i in range(n_pair)]
     tasks = [("other", t) for t in tasks_o] + [("single", t) for t in reversed(tasks_s)] + [("pair", t) for t in tasks_p]
     reports = ctx.pmap(_task, tasks)
     rep = ctx.merge_reports(reports)
